@@ -3,6 +3,7 @@ import ast
 
 from .. import AnalysisError
 from ..report import Ob
+from ..norm import subst
 from ..cfg import calls_at, call_attr, is_self_attr, walk_now
 from .. import inventory as inv
 from .c01 import lt_keys
@@ -642,7 +643,9 @@ def tie_break(ctx, o):
                 r = simple_return(fd)
                 return r is not None and ast.unparse(r) == 'random.random()'
         return False
-    if len(w) != 1 or not _weight_source(w[0].value):
+    from ..norm import single_defs as _sd14
+    wv = subst(w[0].value, _sd14(init)) if len(w) == 1 else None          # `random_weight = random.random(); self.random_weight = random_weight`
+    if len(w) != 1 or not _weight_source(wv):
         o.fail(P, 'Event.__init__', 'self.random_weight = random.random()', 'the tie-break weight is not one draw from the global generator per event', file=Ev.mod.path, line=init.lineno)
     for s in inv.attr_stores(P, 'random_weight'):
         o.count()
